@@ -8,17 +8,33 @@ Import ListNotations.
 Open Scope N_scope.
 
 (* For every set of inputs (any number, with or without a note, any property types and values, one property per type
-   and file) and every -z x86-64-vN: wild's note is exactly the specified one — AND of the AND-class bits over all
+   and file) and every -z x86-64-vN: wild's note is exactly the one GNU ld writes — AND of the AND-class bits over all
    inputs (dropped unless every input has the type and a bit survives), OR of the OR-class bits (dropped if zero),
    OR of the "used" bits (dropped unless every input has the type), in type order; or the link is rejected because
-   some property type has no class. *)
+   some property type has no class.  Excluded (known_findings.json): a single input object carrying a zero-valued
+   generic UINT32_AND / UINT32_OR entry, which GNU ld copies unmerged. *)
 Theorem C36_property_note_is_the_specified_merge :
+  forall files isa, well_formed files -> unmerged_zero files = [] ->
+    wild_merge files isa =
+      if forallb (fun p => match class_of (fst p) with Some _ => true | None => false end) (concat files)
+      then Some (gnu_note files isa) else None.
+Proof. exact wild_is_gnu_note. Qed.
+Print Assumptions C36_property_note_is_the_specified_merge.
+
+(* the bits themselves (every entry that carries a bit) are the specified merge for every input, the excluded one too *)
+Theorem C36_property_bits_are_the_specified_merge :
   forall files isa, well_formed files ->
     wild_merge files isa =
       if forallb (fun p => match class_of (fst p) with Some _ => true | None => false end) (concat files)
       then Some (spec_merge files isa) else None.
 Proof. exact wild_is_spec. Qed.
-Print Assumptions C36_property_note_is_the_specified_merge.
+Print Assumptions C36_property_bits_are_the_specified_merge.
+
+Theorem C36_refuted_single_input_zero_generic_entry :
+  wild_merge [[(3221225474, 3); (2952790017, 0)]] 0 = Some [(3221225474, 3)] /\
+  gnu_note [[(3221225474, 3); (2952790017, 0)]] 0 = [(2952790017, 0); (3221225474, 3)].
+Proof. vm_compute. split; reflexivity. Qed.
+Print Assumptions C36_refuted_single_input_zero_generic_entry.
 
 (* Every accepted link: PT_GNU_STACK is executable exactly when GNU ld's would be — provided the stack notes are not
    PARTLY missing without a -z flag (GNU ld then defaults to an executable stack; known_findings.json). *)
@@ -42,8 +58,9 @@ Proof. vm_compute. split; reflexivity. Qed.
 
 Example C36_hypotheses_satisfiable :
   well_formed [[(3221225474, 3); (3221258242, 1)]; [(3221225474, 1)]] /\
-  spec_merge [[(3221225474, 3); (3221258242, 1)]; [(3221225474, 1)]] 2 = [(3221225474, 1); (3221258242, 3)].
+  unmerged_zero [[(3221225474, 3); (3221258242, 1)]; [(3221225474, 1)]] = [] /\
+  gnu_note [[(3221225474, 3); (3221258242, 1)]; [(3221225474, 1)]] 2 = [(3221225474, 1); (3221258242, 3)].
 Proof.
-  split; [|vm_compute; reflexivity].
+  split; [|vm_compute; split; reflexivity].
   intros f [<-|[<-|[]]]; cbn [map fst]; repeat constructor; cbn; intuition discriminate.
 Qed.
